@@ -297,14 +297,27 @@ Definition default_ev (d : c08_default) : ev :=
 
 Definition is_name (e : ev) : bool := match e with VName _ _ => true | _ => false end.
 
-(* the re-linking loop of _load_expression for ExprAttribute: `value.parent = previous` needs an ExprName
-   (the dataclasses use slots: any other object raises AttributeError) *)
-Fixpoint relink_chain (prev : bool) (l : list ev) : res (list ev) :=
+(* the re-linking loop of _load_expression for ExprAttribute:
+     previous = None
+     for value in values: if previous is not None: value.parent = previous
+                          if isinstance(value, ExprName): previous = value  elif isinstance(value, str): previous = "str"
+   `value.parent = ...` on an ExprName is the dataclass field; any other Expr instance accepts the assignment too (the
+   base class Expr has no __slots__, so the instances have a __dict__) and nothing observable changes; a str / None /
+   list / bool raises AttributeError *)
+Inductive prevk := PvNone | PvName | PvStr.
+Definition is_vstr (e : ev) : bool := match e with VStr _ => true | _ => false end.
+Definition next_prev (p : prevk) (v : ev) : prevk := if is_name v then PvName else if is_vstr v then PvStr else p.
+Definition link_of (p : prevk) : option plink := match p with PvNone => None | PvName => Some LPrev | PvStr => Some LStr end.
+
+Fixpoint relink_chain (prev : prevk) (l : list ev) : res (list ev) :=
   match l with
   | [] => Ok []
   | v :: r =>
-      let! v' := (if prev then match v with VName n _ => Ok (VName n LPrev) | _ => Err EAttr end else Ok v) in
-      let! r' := relink_chain (prev || is_name v) r in
+      let! v' := (match link_of prev with
+                  | None => Ok v
+                  | Some lk => match v with VName n _ => Ok (VName n lk) | VNode _ _ => Ok v | _ => Err EAttr end
+                  end) in
+      let! r' := relink_chain (next_prev prev v) r in
       Ok (v' :: r')
   end.
 
@@ -312,7 +325,7 @@ Definition relink_fields (fs : list (string * ev)) : res (list (string * ev)) :=
   mapM (fun kv => match kv with
                   | (k, v) => if String.eqb k "values"
                               then match v with
-                                   | VList l => let! l' := relink_chain false l in Ok (k, VList l')
+                                   | VList l => let! l' := relink_chain PvNone l in Ok (k, VList l')
                                    | _ => Err EUnmodelled
                                    end
                               else Ok (k, v)
@@ -429,65 +442,42 @@ Definition load_parameter (d : list (string * pv)) : res pv :=
   let! df' := ev_res df in
   Ok (PParam (mkParam n' a' (Some k') df' doc)).
 
-(* -- _attach_parent_to_expr: only the first layer of `expr.iterate(flat=False)` is visited *)
-Definition set_scope (e : ev) : ev :=
+(* -- _attach_parent_to_expr: every name at any depth gets the scope as parent, through every dataclass field and
+   every list; in a dotted chain (ExprAttribute.values) only the first element is visited and, of the others, those
+   that are not names: the names after it keep the link the loading gave them *)
+Fixpoint attach_ev (e : ev) : ev :=
   match e with
   | VName n _ => VName n LScope
+  | VList l => VList (map attach_ev l)
   | VNode c fs =>
       if String.eqb c "ExprAttribute"
       then VNode c (map (fun kv => match kv with
                                    | (k, v) => if String.eqb k "values"
                                                then (k, match v with
-                                                        | VList (VName n _ :: r) => VList (VName n LScope :: r)
+                                                        | VList (v0 :: r) =>
+                                                            VList (attach_ev v0 :: map (fun x => if is_name x then x else attach_ev x) r)
                                                         | _ => v
                                                         end)
                                                else (k, v)
                                    end) fs)
-      else e
+      else VNode c (map (fun kv => match kv with (k, v) => (k, attach_ev v) end) fs)
   | _ => e
   end.
-
-Definition field_str (k : string) (fs : list (string * ev)) : option string :=
-  match lookup k fs with Some (VStr s) => Some s | Some (VEnum s) => Some s | _ => None end.
-(* ExprLambda.iterate yields `parameter.default` unless the parameter is variadic *)
-Definition attach_lambda_param (p : ev) : ev :=
-  match p with
-  | VNode c pfs =>
-      let variadic := match field_str "kind" pfs with
-                      | Some k => String.eqb k pk_var_positional || String.eqb k pk_var_keyword
-                      | None => false end in
-      if variadic then p
-      else VNode c (map (fun kv => match kv with (k, v) => if String.eqb k "default" then (k, set_scope v) else (k, v) end) pfs)
-  | _ => p
-  end.
-
-(* which direct children `iterate(flat=False)` yields: every sub-expression held in a field, except
-   ExprKeyword.function; ExprParameter yields nothing; ExprLambda yields its parameters' defaults and its body *)
-Definition attach_field (c k : string) (v : ev) : ev :=
-  if String.eqb c "ExprParameter" || (String.eqb c "ExprKeyword" && String.eqb k "function") then v
-  else if String.eqb c "ExprLambda" && String.eqb k "parameters"
-       then match v with VList ps => VList (map attach_lambda_param ps) | _ => v end
-  else match v with VList l => VList (map set_scope l) | _ => set_scope v end.
-
-Definition attach_top (e : ev) : ev :=
-  match e with
-  | VName n _ => VName n LScope
-  | VNode c fs => VNode c (map (fun kv => match kv with (k, v) => (k, attach_field c k v) end) fs)
-  | _ => e
-  end.
+Definition attach_top (e : ev) : ev := attach_ev e.
 
 Definition attach_deco (d : decorator) : decorator := mkDeco (attach_top (dc_value d)) (dc_lineno d) (dc_endlineno d).
 Definition attach_param (p : parameter) : parameter :=
   mkParam (p_name p) (attach_top (p_annotation p)) (p_kind p) (attach_top (p_default p)) (p_doc p).
 
-(* _attach_parent_to_exprs(obj, parent): Class -> decorators; Function -> decorators, parameters, returns;
-   Attribute -> value.  Class bases and Attribute annotations are not visited. *)
+(* _attach_parent_to_exprs(obj, parent): Class -> decorators, bases; Function -> decorators, parameters, returns;
+   Attribute -> value, annotation.  (_load_class also attaches a class's own decorators and bases to the class itself;
+   attaching the class as a member overrides that, so it shows on a class that is the root of a document only.) *)
 Definition attach_extra (x : extra) : extra :=
   match x with
   | XModule fp => XModule fp
-  | XClass bases decos => XClass bases (map attach_deco decos)
+  | XClass bases decos => XClass (map attach_top bases) (map attach_deco decos)
   | XFunction decos params ret => XFunction (map attach_deco decos) (map attach_param params) (attach_top ret)
-  | XAttribute v a => XAttribute (attach_top v) a
+  | XAttribute v a => XAttribute (attach_top v) (attach_top a)
   end.
 Definition attach_tree (t : tree) : tree :=
   match t with
@@ -644,11 +634,11 @@ Definition from_json (j : json) : res tree :=
 (* ------------------------------------------------------------------------------------------------ *)
 (* 6. What a reload does to a tree, as an explicit function                                           *)
 
-Fixpoint relink_chain_t (prev : bool) (l : list ev) : list ev :=
+Fixpoint relink_chain_t (prev : prevk) (l : list ev) : list ev :=
   match l with
   | [] => []
-  | v :: r => (if prev then match v with VName n _ => VName n LPrev | _ => v end else v)
-              :: relink_chain_t (prev || is_name v) r
+  | v :: r => (match link_of prev, v with Some lk, VName n _ => VName n lk | _, _ => v end)
+              :: relink_chain_t (next_prev prev v) r
   end.
 
 Fixpoint reload_ev (e : ev) : ev :=
@@ -662,7 +652,7 @@ Fixpoint reload_ev (e : ev) : ev :=
       if String.eqb c "ExprAttribute"
       then VNode c (map (fun kv => match kv with
                                    | (k, v) => if String.eqb k "values"
-                                               then (k, match v with VList l => VList (relink_chain_t false l) | _ => v end)
+                                               then (k, match v with VList l => VList (relink_chain_t PvNone l) | _ => v end)
                                                else (k, v)
                                    end) fs')
       else if String.eqb c "ExprParameter" then VNode c (fix_kind_t fs')
@@ -817,18 +807,17 @@ Fixpoint ev_eqb (a b : ev) : bool :=
   | _, _ => false
   end.
 
-(* the slot is re-attached by the loader (attached = true) or left alone *)
-Definition slot_restored (attached : bool) (e : ev) : bool :=
-  ev_eqb (if attached then attach_top (reload_ev e) else reload_ev e) e.
+(* every slot is re-attached by the loader: the expression comes back with the very same links *)
+Definition slot_restored (e : ev) : bool := ev_eqb (attach_top (reload_ev e)) e.
 
-Definition deco_restored (d : decorator) : bool := slot_restored true (dc_value d).
-Definition param_restored (p : parameter) : bool := slot_restored true (p_annotation p) && slot_restored true (p_default p).
+Definition deco_restored (d : decorator) : bool := slot_restored (dc_value d).
+Definition param_restored (p : parameter) : bool := slot_restored (p_annotation p) && slot_restored (p_default p).
 Definition extra_restored (x : extra) : bool :=
   match x with
   | XModule _ => true
-  | XClass bases decos => forallb (slot_restored false) bases && forallb deco_restored decos
-  | XFunction decos params ret => forallb deco_restored decos && forallb param_restored params && slot_restored true ret
-  | XAttribute v a => slot_restored true v && slot_restored false a
+  | XClass bases decos => forallb slot_restored bases && forallb deco_restored decos
+  | XFunction decos params ret => forallb deco_restored decos && forallb param_restored params && slot_restored ret
+  | XAttribute v a => slot_restored v && slot_restored a
   end.
 (* G-expr: some expression of the tree is not restored exactly (links or enum-typed fields) *)
 Fixpoint gap_expr (t : tree) : bool :=
